@@ -25,7 +25,7 @@ timeout: 120
 */
 /*@unit
 name: find_long_option
-define: U_FIND_LONG, VOPT_TABLE_STRINGS_ASSUMED
+define: U_FIND_LONG, VOPT_UNREGISTERED_STRINGS_ASSUMED
 src: options.c
 enforce: find_long_option
 giflags: --restrict-function-pointer find_long_option.function_pointer_call.1/vopt_help
@@ -72,6 +72,7 @@ void harness(void)
     char opt = nondet_char();
     vopt_env_init();
     __CPROVER_assume(vg_k <= 65536);
+    VOPT_MK_TABLE();
     w_n = OPT_N; w_k = vg_k; w_bad = spifopt_settings.bad_opts; w_allow = spifopt_settings.allow_bad; w_opt = opt;
     find_short_option(opt);
     VERIF_CANARY();
@@ -82,12 +83,14 @@ void harness(void)
 /* opt: registered string 1 (exact length vg_n1).  The table entry with ghost index vg_k has a
  * real long name: registered string 2 (exact length vg_n2); vg_cmp is the outcome of comparing
  * the two (see env_options.h).  Entry vg_k matches iff its name equals the first vg_n2
- * characters of opt and opt continues with '=' or ends there. */
+ * characters of opt and opt continues with '=' or ends there.
+ * (The harness allocates the strings and ASSIGNS the ghost pointers: cbmc dereferences by
+ * points-to sets, an assumed equality with an is_fresh pointer would not be followed.) */
 #define LONG_MATCH_K  (vg_cmp == 0 && vg_n2 <= vg_n1 && (opt[vg_n2] == '=' || opt[vg_n2] == 0))
 static spif_int32_t find_long_option(spif_charptr_t opt)
 __CPROVER_requires(OPTTAB_INV && OPT_HELP_INV && OPT_BAD_ROOM)
-__CPROVER_requires(VCSTR_FRESH(opt, vg_n1) && vg_p1 == (const char *) opt)
-__CPROVER_requires(!((long) vg_k < OPT_N) || (VCSTR_FRESH(OPT_TAB[vg_k].long_opt, vg_n2) && vg_p2 == (const char *) OPT_TAB[vg_k].long_opt))
+__CPROVER_requires(VOPT_STR_OK(opt, vg_n1) && vg_p1 == (const char *) opt)
+__CPROVER_requires(!((long) vg_k < OPT_N) || (VOPT_STR_OK(vg_p2, vg_n2) && vg_p2 == (const char *) OPT_TAB[vg_k].long_opt))
 __CPROVER_requires((long) vg_k < OPT_N || vg_p2 == NULL)
 __CPROVER_assigns(spifopt_settings.bad_opts, vg_help_calls, vg_lastp, vg_lastn)
 __CPROVER_ensures(__CPROVER_return_value == -1 ||
@@ -103,7 +106,14 @@ void harness(void)
 {
     spif_charptr_t opt;
     vopt_env_init();
-    __CPROVER_assume(vg_k <= 65536);
+    __CPROVER_assume(vg_k <= 65536 && vg_n1 <= VCAP && vg_n2 <= VCAP);
+    VOPT_MK_TABLE();
+    VOPT_MK_STR(opt, vg_n1); vg_p1 = (const char *) opt;
+    vg_p2 = NULL;
+    if ((long) vg_k < OPT_N) {
+        char *nm; VOPT_MK_STR(nm, vg_n2);
+        OPT_TAB[vg_k].long_opt = (spif_charptr_t) nm; vg_p2 = nm;
+    }
     w_n = OPT_N; w_k = vg_k; w_bad = spifopt_settings.bad_opts; w_allow = spifopt_settings.allow_bad;
     find_long_option(opt);
     VERIF_CANARY();
